@@ -2,6 +2,7 @@
 # tools/seed_all.sh [--confirm] [--lane i/n] : run every seeded change against
 # its check(s).  With --lane, only every n-th seed (used by seed_lanes.sh, which
 # runs n copies of /verif against n scratch worktrees of /repo in parallel).
+# SEED_GLOB='C??-1[12]' restricts the seeds (shell pattern under seeded/).
 cd "$(dirname "$0")/.."
 conf="--skip-confirm"; lane=0; nl=1
 while [ $# -gt 0 ]; do
@@ -9,7 +10,7 @@ while [ $# -gt 0 ]; do
   shift
 done
 k=0
-for d in seeded/C[0-9][0-9]-[0-9]*; do
+for d in seeded/${SEED_GLOB:-C[0-9][0-9]-[0-9]*}; do
   k=$((k+1))
   [ $((k % nl)) -eq $lane ] || continue
   s=$(basename $d)
